@@ -1,17 +1,71 @@
 """C03 — stop-token protocol."""
+import itertools, os, random, subprocess, time
+from .. import vlib
 from ..atomic import AtomicPart
 from ..runner import run_check
+
+
+class FusedPart:
+    """operation sequences (register / deregister / upstream stop requests, every mask of live and never-stoppable upstream
+    tokens) on the real fused_stop_source vs the Lean model Proto/Fused (`ask fused run`), plus a model-independent monitor:
+    while registered, a stop request on a live upstream token must be visible on the fused source"""
+    name = "fused"
+
+    def run(self, tier, seed, verdict, cov, driver):
+        t0 = time.time()
+        try:
+            exe = vlib.build_plain(os.path.join(vlib.VERIF, "harness", "evt", "fusedprobe.cpp"), ["inplace_stop_token.cpp"], (), None,
+                                   sanitize="address,undefined", name="fusedprobe")
+        except vlib.BuildError as e:
+            verdict.add("fused:build", "fused_stop_source probe does not build against the current tree: " + str(e)[-1500:], dict(stream=self.name), found_input=False)
+            return
+        alphabet = ["R", "D", "S0", "S1", "S2"]
+        masks = ["".join(m) for m in itertools.product("01", repeat=3)]
+        seqs = [list(p) for n in range(1, 5) for p in itertools.product(alphabet, repeat=n)]          # all sequences up to length 4
+        r = random.Random(seed * 31 + 5)
+        seqs += [[r.choice(alphabet) for _ in range(r.randint(5, 9))] for _ in range(300 if tier == "quick" else 5000)]
+        lines = [f"{m} | {' '.join(q)}" for m in masks for q in seqs]
+        p = subprocess.run([exe], input="\n".join(lines) + "\n", capture_output=True, text=True, timeout=600)
+        impl = p.stdout.split("\n")[:len(lines)]
+        if p.returncode != 0 or len(impl) < len(lines):
+            verdict.add("fused: probe aborted", "fusedprobe aborted: " + p.stderr[-1500:], dict(stream=self.name, stderr=p.stderr[-3000:]))
+            return
+        model = [driver.ask("ask fused run | " + l) for l in lines]
+        mism = 0
+        for l, a, b in zip(lines, impl, model):
+            cov["evaluations"] += 1
+            cov["traces_validated_against_impl"] += 1
+            # model-independent monitor: R ... S<i> with token i live and no D in between => fused must be stopped after S<i>
+            mask, ops = l.split(" | ")
+            reg = False
+            for k, (op, f) in enumerate(zip(ops.split(), a.split())):
+                if op == "R": reg = True
+                elif op == "D": reg = False
+                elif reg and mask[int(op[1])] == "1" and f != "1":
+                    verdict.add("fused: monitor: upstream stop request not forwarded while registered", f"{l}: after op {k} ({op}) the fused source does not report stop: {a}",
+                                dict(stream=self.name, case=l, impl=a, model=b))
+                    break
+            if a.strip() != b.strip():
+                mism += 1
+                verdict.add("fused: trace differs from the model", f"{l}: impl {a}  model {b}", dict(stream=self.name, case=l, impl=a, model=b, broken="correspondence fusedprobe vs Proto/Fused"))
+            elif "1" in a:
+                cov["distinct_nontrivial"] += 1
+        cov["rejected_histories"] += mism
+        cov["samples"].append(dict(stream=self.name, case=lines[len(lines) // 2], observation=impl[len(lines) // 2]))
+        cov["parts_wall_s"][self.name] = round(time.time() - t0, 1)
 
 SCENARIOS = ["race", "two_stops", "self_dereg", "dereg_other", "reg_after_stop", "two_owners", "late_stop_dereg", "late_stop_self_dereg"]
 
 
 def run(tier, seed, replay=None):
-    parts = [AtomicPart("stopsource", "scn_c03.cpp", ["inplace_stop_token.cpp"], "stopsource", SCENARIOS)]
+    parts = [AtomicPart("stopsource", "scn_c03.cpp", ["inplace_stop_token.cpp"], "stopsource", SCENARIOS), FusedPart()]
     return run_check(
-        "C03", tier, seed, ["UnifexModel.Props.C03", "UnifexModel.Props.C03_late"], parts,
-        rule="every schedule (DFS, preemption-bounded, plus random/PCT walks) of 6 scenarios on the real inplace_stop_source under the "
+        "C03", tier, seed, ["UnifexModel.Props.C03", "UnifexModel.Props.C03_late", "UnifexModel.Props.C03_fused"], parts,
+        rule="(fused_stop_source) every register/deregister/upstream-stop sequence up to length 4 plus random longer ones, for all 8 masks of live / never-stoppable upstream tokens, "
+             "on the real fused_stop_source, compared with the Lean model Proto/Fused; (inplace_stop_source) every schedule (DFS, preemption-bounded, plus random/PCT walks) of 8 scenarios on the real inplace_stop_source under the "
              "controlled scheduler; a case = one distinct observable history; non-trivial = admitted by the Lean model after at least one context switch",
         assumptions=["sequentially consistent atomics (memory orders ignored)", "critical sections of the spin lock are atomic w.r.t. other lock holders",
                      "instances: <=2 callbacks, <=3 threads (theorems are per instance, all schedules of unbounded length)"],
         trusted_extra=["harness/rt (cooperative scheduler, __tsan_* shim)", "Core/Admit.lean trace-inclusion test", "g++ 12 -fsanitize=thread instrumentation"],
-        explanation="Theorems: Props/C03 *_safe for each instance (kernel-evaluated closure of the reachable set). Tie: trace inclusion of real executions in the model.")
+        explanation="Props/C03_fused (every token set, every operation sequence): fused_stop_only_after_an_upstream_stop, registered_upstream_stop_reaches_fused, one_live_token_suffices, "
+                    "earlier_stop_seen_at_registration. Theorems: Props/C03 *_safe for each instance (kernel-evaluated closure of the reachable set). Tie: trace inclusion of real executions in the model.")
